@@ -114,6 +114,19 @@ func runC12(c c12Case, r *rep.Report) (key, msg string, stats map[string]int64) 
 					}
 					time.Sleep(2 * time.Second)
 					rig.Wait()
+					late := false
+					if polling && cl.Ended() == "" {
+						late = true
+						// The orderly close is handed to the next poll by a test-then-store pair in the
+						// transport (DoClose: "not writable" -> remember the close; poll arrival: set
+						// writable -> look for a remembered close).  When the poll arrives in between,
+						// the close packet leaves only when the close timeout fires.  The statement
+						// bounds the time ("within bounded time (the fixed close timeout ...)"), it does
+						// not promise the very next poll: wait for the bound, then judge.
+						stats["graceful_close_delivered_only_at_close_timeout"]++
+						time.Sleep(31 * time.Second)
+						rig.Wait()
+					}
 					// all accepted messages, then the close packet / teardown
 					got := cl.Received()
 					var msgs []string
@@ -133,11 +146,16 @@ func runC12(c c12Case, r *rep.Report) (key, msg string, stats map[string]int64) 
 					stats["graceful_closes"]++
 					if strings.Join(msgs, ",") != strings.Join(sent, ",") {
 						k := "c12-packets-lost-on-graceful-close:" + c.Transport
-						key, msg = k, fmt.Sprintf("Close(false) with %v accepted: client received %v before the teardown (client loop: %s)", sent, msgs, cl.Ended())
+						key, msg = k, fmt.Sprintf("Close(false) with %v accepted: client received %v before the teardown (client loop: %s)%s", sent, msgs, cl.Ended(), w.Tap.Dump(60))
 						return
 					}
-					if polling && !sawClose {
-						key, msg = "c12-no-close-packet", fmt.Sprintf("polling client never received a close packet; loop ended: %q", cl.Ended())
+					if polling && !sawClose && !late {
+						key, msg = "c12-no-close-packet", fmt.Sprintf("polling client never received a close packet; loop ended: %q%s", cl.Ended(), w.Tap.Dump(60))
+						return
+					}
+					if late && cl.Ended() == "" {
+						// closed by the close timeout: the poll that was pending must have been released
+						key, msg = "c12-pending-poll-not-released", fmt.Sprintf("graceful close completed by the close timeout, the client's pending poll is still unanswered%s", w.Tap.Dump(30))
 						return
 					}
 				} else {
@@ -383,6 +401,76 @@ func runC12CloseVsDrain(transport string, r *rep.Report) (key, msg string, held 
 	return
 }
 
+// runC12CloseVsFlush holds a flush after it has taken its batch from the write buffer and before
+// it hands it to the transport (hook socket.doFlush.batchTaken); Close(false) runs meanwhile.
+func runC12CloseVsFlush(transport string, r *rep.Report) (key, msg string, held bool) {
+	rig.Bubble(r.T(), func() {
+		so := &config.ServerOptions{}
+		so.SetTransports(types.NewSet("polling", "websocket", "webtransport"))
+		so.SetPingInterval(25 * time.Second)
+		so.SetPingTimeout(20 * time.Second)
+		w := rig.NewWorld(rig.Options{Server: so})
+		defer w.Finish()
+		cl, err := w.Connect(rig.ClientCfg{Rev: 4, Transport: transport})
+		rig.Wait()
+		sock := w.Socket(0)
+		if err != nil || sock == nil {
+			key, msg = "c12-handshake-failed", fmt.Sprint(err)
+			return
+		}
+		sid := sock.Id()
+		cl.StartReader()
+		time.Sleep(time.Millisecond)
+		rig.Wait()
+		w.Gate.Arm("socket.doFlush.batchTaken", 1)
+		go sock.Send(types.NewStringBufferString("m0"), nil, nil)
+		rig.Settle()
+		if len(w.Gate.Parked()) != 1 {
+			r.Inconclusive("close-vs-flush: the flush was not held with its batch")
+			w.Gate.ReleaseAll()
+			return
+		}
+		held = true
+		// the held goroutine owns the session's flush lock: settle on real time
+		closed := make(chan struct{})
+		go func() { sock.Close(false); close(closed) }()
+		rig.Settle()
+		rig.Settle()
+		w.Gate.ReleaseAll()
+		<-closed
+		time.Sleep(2 * time.Second)
+		rig.Wait()
+		var got []string
+		sawClose := false
+		for _, rv := range cl.Received() {
+			if rv.P.Type == refcodec.Message {
+				if sawClose {
+					key, msg = "c12-message-after-close-packet", fmt.Sprintf("message %q arrived after the close packet", rv.P.Data)
+					return
+				}
+				got = append(got, string(rv.P.Data))
+			}
+			if rv.P.Type == refcodec.Close {
+				sawClose = true
+			}
+		}
+		if strings.Join(got, ",") != "m0" {
+			key, msg = "c12-packets-lost-on-graceful-close:"+transport, fmt.Sprintf("Close(false) while a flush holds the batch [m0] between the write buffer and the transport: the client received %v before the teardown (client loop: %s)%s", got, cl.Ended(), w.Tap.Dump(40))
+			return
+		}
+		if transport == "polling" && !sawClose {
+			key, msg = "c12-no-close-packet", fmt.Sprintf("Close(false) while a flush holds the batch [m0]: the polling client received m0 but never a close packet (client loop: %q)", cl.Ended())
+			return
+		}
+		ev := w.Tap.Of(sid, "close")
+		if len(ev) != 1 || ev[0].Str != "forced close" {
+			key, msg = "c12-close-reason", fmt.Sprintf("%s: close events %v", transport, ev)
+		}
+		cl.Stop()
+	})
+	return
+}
+
 func TestC12(t *testing.T) {
 	r := rep.New(t, "C12")
 	defer r.Flush()
@@ -393,6 +481,14 @@ func TestC12(t *testing.T) {
 	if r.Lane == 2%r.Lanes {
 		for k := 0; k < r.N(8, 400); k++ {
 			for _, tr := range []string{"polling", "websocket", "webtransport"} {
+				k2, m2, h2 := runC12CloseVsFlush(tr, r)
+				r.Case("close-vs-flush/"+tr, true)
+				if h2 {
+					r.Obs("gate:flush_held_with_batch_while_close_runs", 1)
+				}
+				if k2 != "" {
+					r.Violation(k2, m2, map[string]string{"lane": "close-vs-flush", "transport": tr})
+				}
 				key, msg, held := runC12CloseVsDrain(tr, r)
 				r.Case("close-vs-drain/"+tr, true)
 				if held {
